@@ -150,10 +150,13 @@ func c10Sentinels(w *World, r *Report, d string) {
 				ok = true
 			}
 		}
-		// success return's release comes from records.Remove
-		fromRemove := false
+		// every success return's release comes from records.Remove(key) (the record found under that key)
+		fromRemove := true
+		nSucc := 0
 		for _, rp := range dg.classifyReturns() {
 			if rp.Class == RetSuccess {
+				nSucc++
+				one := false
 				res0 := rp.Ret.Results[0]
 				if rp.Pred != nil {
 					if v, ok := spilledResults(rp.Ret, 0)[rp.Pred]; ok {
@@ -163,13 +166,19 @@ func c10Sentinels(w *World, r *Report, d string) {
 				backSlice(res0, func(v ssa.Value) bool {
 					if c, isC := v.(*ssa.Call); isC {
 						if f, _ := calleeOf(c.Common()); f != nil && strings.HasSuffix(FuncName(f), "records).Remove") {
-							fromRemove = true
+							one = true
 						}
 						return true
 					}
 					return false
 				})
+				if !one {
+					fromRemove = false
+				}
 			}
+		}
+		if nSucc == 0 {
+			fromRemove = false
 		}
 		r.Check(ok && fromRemove, "C10/SENTINELS", d+"/Delete", w.Pos(del.Pos()), "Delete returns the removed record's release, or ErrReleaseNotFound", "Delete does not return the removed release / ErrReleaseNotFound")
 	}
